@@ -95,6 +95,16 @@ class Contract:
         self.params[name] = sort
         return self
 
+    def ghost_param(self, name, sort, default=None):
+        """A specification-only parameter (e.g. a termination bound).  A caller supplies it by assigning the
+        ghost variable `ghostarg_<name>` before the call (c.before(<call stmt>, "ghostarg_<name> = expr"));
+        otherwise `default` (an expression over the call's pre-state) is used."""
+        self.ghost_params[name] = sort
+        if default is not None:
+            self.ghost_param_defaults = getattr(self, "ghost_param_defaults", {})
+            self.ghost_param_defaults[name] = default
+        return self
+
     def returns(self, sort):
         self.result = sort
         return self
